@@ -23,6 +23,12 @@ fn main() {
             i += 1;
         }
     }
+    if rest[0] == "--grind-sigshapes" {
+        let recs = enrverif::sigshapes::grind(3_000_000);
+        std::fs::write(&rest[1], serde_json::to_string_pretty(&recs).unwrap()).unwrap();
+        eprintln!("{} records", recs.len());
+        return;
+    }
     let seed = std::env::var("VERIF_SEED")
         .ok()
         .and_then(|s| {
